@@ -18,8 +18,8 @@ type Value interface{}
 type Str struct {
 	S    string
 	Code *smt.Term
-	Num  *smt.Term // when set: the decimal rendering of this 64-bit integer term
-	FNum *smt.Term // when set: a text that strconv.ParseFloat parses to this float64 term (NaN/Inf included)
+	Num  *smt.Term   // when set: the decimal rendering of this 64-bit integer term
+	FNum *smt.Term   // when set: a text that strconv.ParseFloat parses to this float64 term (NaN/Inf included)
 	Fmt  []*smt.Term // when set: S is a template in which each \x00 stands for the decimal rendering of the next integer term
 }
 
